@@ -78,9 +78,11 @@ def relOrd [LT α] [DecidableRel (α := α) (· < ·)] [DecidableEq α] (op : Op
   | .ge => .value (.bool (b < a || a = b))
   | _ => .any
 
-def repeatStr (s : String) : Nat → String
+def repeatStrAux (s : String) : Nat → String
   | 0 => ""
-  | n+1 => s ++ repeatStr s n
+  | n+1 => s ++ repeatStrAux s n
+
+def repeatStr (s : String) (n : Nat) : String := if s = "" then "" else repeatStrAux s n
 
 /-- structural equality of the spec: numbers by value (integer/float mixes as doubles) -/
 def numEq : Val → Val → Option Bool
